@@ -2233,9 +2233,14 @@ class AstEval:
 class EvalExceptionFormatter:
     """Format exceptions using pyscript-aware traceback frames."""
 
-    def __init__(self, exc: BaseException) -> None:
+    def __init__(self, exc: BaseException, _seen: set[int] | None = None) -> None:
         """Initialize exception formatter state."""
         self.exc = exc
+        # like the traceback module: each exception of a cause/context chain is formatted once, so a chain that
+        # loops back (eg, "raise exc from exc") ends
+        if _seen is None:
+            _seen = set()
+        _seen.add(id(exc))
 
         self.current_func: str | None = None
         self.current_code_list: list[str] | None = None
@@ -2249,12 +2254,16 @@ class EvalExceptionFormatter:
         self._build_stack()
         self.chained_msg: str | None = None
         self.chained_exc: EvalExceptionFormatter | None = None
-        if exc.__cause__ is not None:
+        if exc.__cause__ is not None and id(exc.__cause__) not in _seen:
             self.chained_msg = traceback._cause_message
-            self.chained_exc = EvalExceptionFormatter(exc.__cause__)
-        elif exc.__context__ is not None and not exc.__suppress_context__:
+            self.chained_exc = EvalExceptionFormatter(exc.__cause__, _seen)
+        elif (
+            exc.__context__ is not None
+            and not exc.__suppress_context__
+            and id(exc.__context__) not in _seen
+        ):
             self.chained_msg = traceback._context_message
-            self.chained_exc = EvalExceptionFormatter(exc.__context__)
+            self.chained_exc = EvalExceptionFormatter(exc.__context__, _seen)
 
     def format(self) -> list[str]:
         """Return formatted traceback lines for this exception."""
